@@ -192,7 +192,10 @@ class Harness:
     def probe(self, wit):
         ctx = self.ctx
         ebp = None
-        for cpv, slot in PROBE_SLOTS.items():
+        # alternate the probe package so that a stale or swapped reply (the other package's SLOT) is visible
+        self.probe_turn = getattr(self, "probe_turn", 0) + 1
+        items = list(PROBE_SLOTS.items())
+        for cpv, slot in [items[self.probe_turn % 2]]:
             try:
                 ebp = self.acquire()
                 try:
@@ -400,7 +403,7 @@ def session(ctx, h, actions=None):
 def run(ctx):
     h = Harness(ctx)
     h.shapes = set()
-    n = ctx.budget(10, 60)
+    n = ctx.budget(7, 60)
     bad = BAD_ECLASS[0]
     directed = [
         # a batch whose FIRST reply is the failing one, consumed synchronously, then further requests
